@@ -357,7 +357,7 @@ def check_quoted_holes(run, f, cfg):
             if True in out:
                 run.ob("C03.R3", "unbalanced:%s" % name, False, "%s can end inside an open single quote" % name, sp=t.fn["sp"], cfg=cfg)
     run.floor("C03.R3", "sink-fns", nfn, 150, cfg)
-    run.floor("C03.R3", "quoted-holes", nholes, 5, cfg)
+    run.floor("C03.R3", "quoted-holes", nholes, {"full": 5, "single": 2}, cfg)
 
 
 def check_inline_sites(run, f, cfg):
